@@ -528,6 +528,24 @@ func (r *Recomposer) recomp(v any, rv reflect.Value) {
 	}
 }
 
+// setIntText sets an integer from its decimal text. Unsigned targets are parsed unsigned so that the upper half of the
+// uint64 range is reachable.
+func setIntText(rv reflect.Value, s string, unsigned bool) {
+	if unsigned {
+		u, err := strconv.ParseUint(s, 10, 64)
+		if err != nil {
+			panic(err)
+		}
+		rv.SetUint(u)
+		return
+	}
+	i, err := strconv.ParseInt(s, 10, 64)
+	if err != nil {
+		panic(err)
+	}
+	rv.SetInt(i)
+}
+
 func lowerFirst(s string) string {
 	name := []byte(s)
 	name[0] |= 0x20
@@ -562,18 +580,11 @@ func (r *Recomposer) setValue(v any, rv reflect.Value, sf *reflect.StructField) 
 		}
 	case reflect.Int, reflect.Int8, reflect.Int16, reflect.Int32, reflect.Int64,
 		reflect.Uint, reflect.Uint8, reflect.Uint16, reflect.Uint32, reflect.Uint64:
+		unsigned := reflect.Uint <= rv.Kind() && rv.Kind() <= reflect.Uint64
 		if s, ok := v.(string); ok && sf != nil && strings.Contains(sf.Tag.Get("json"), ",string") {
-			if i, err := strconv.Atoi(s); err == nil {
-				rv.Set(reflect.ValueOf(i).Convert(rv.Type()))
-			} else {
-				panic(err)
-			}
+			setIntText(rv, s, unsigned)
 		} else if jn, jok := v.(json.Number); jok {
-			if i, err := jn.Int64(); err == nil {
-				rv.Set(reflect.ValueOf(i).Convert(rv.Type()))
-			} else {
-				panic(err)
-			}
+			setIntText(rv, string(jn), unsigned)
 		} else {
 			rv.Set(reflect.ValueOf(v).Convert(rv.Type()))
 		}
